@@ -144,6 +144,7 @@ fn run_world(run: &Run, net: NetID, ages: &[u64], difficulties: &[(u32, bool)], 
     let other_header = root.view().header();
     let mut prev = sealed1;
     let mut prev_age = 0u64;
+    let mut record_child: Option<Node> = None;
     for age in ages {
         // state at height coin_height + age: advance age-1-prev_age sealed blocks, then open
         let target_sealed = age - 1;
@@ -164,7 +165,7 @@ fn run_world(run: &Run, net: NetID, ages: &[u64], difficulties: &[(u32, bool)], 
             match eng.step(&open, &a) {
                 StepOut::Next(child) => {
                     run.outcome(if c.valid { "mint:valid-accepted" } else { "mint:accepted" });
-                    accepted_speeds.lock().push((c.tx.clone(), child.view().header().dosc_speed));
+                    accepted_speeds.lock().push((c.tx.clone(), child.view().header().dosc_speed, child));
                 }
                 StepOut::Rejected => run.outcome(if c.valid { "mint:valid-rejected(statement is only-if: recorded)" } else { "mint:invalid-rejected" }),
                 StepOut::Pruned => run.outcome("mint:engine-reported"),
@@ -172,7 +173,12 @@ fn run_world(run: &Run, net: NetID, ages: &[u64], difficulties: &[(u32, bool)], 
         });
         // two mints of different speed in one block: the recorded speed is the maximum (engine oracle compares with the model)
         let acc = accepted_speeds.into_inner();
-        let mut by_coin: Vec<&(Transaction, u128)> = vec![];
+        // remember a state in which a mint of coin 0 set a new speed record (for the second phase below)
+        if record_child.is_none() {
+            let open_speed = open.view().header().dosc_speed;
+            record_child = acc.iter().filter(|x| x.1 > open_speed && x.0.inputs[0] == coins[0].0).max_by_key(|x| x.1).map(|x| x.2.clone());
+        }
+        let mut by_coin: Vec<&(Transaction, u128, Node)> = vec![];
         for x in acc.iter() {
             if by_coin.iter().all(|y| y.0.inputs[0] != x.0.inputs[0]) {
                 by_coin.push(x);
@@ -192,6 +198,44 @@ fn run_world(run: &Run, net: NetID, ages: &[u64], difficulties: &[(u32, bool)], 
                 }
             }
         }
+    }
+    match &record_child {
+        Some(rc) => {
+            run.outcome("speed-record-state-found");
+            // coins 1 and 2 were created before the record; only the larger difficulties give a non-zero reward bound
+            let ds: Vec<(u32, bool)> = difficulties.iter().filter(|d| d.0 >= 8).cloned().collect();
+            after_speed_record(run, &eng, rc, &coins[1..], &ds, thorough, &other_header);
+        }
+        None => run.outcome("speed-record-state-missing"),
+    }
+}
+
+/// Second phase: after a mint has raised the recorded DOSC speed, later mints of *older* coins are bounded by the previous
+/// block's (raised) speed, not by the speed recorded when the coin was created.
+fn after_speed_record(run: &Run, eng: &Engine, record: &Node, coins: &[(CoinID, u128, u64)], difficulties: &[(u32, bool)], thorough: bool, other_header: &melstructs::Header) {
+    let sealed = match eng.step(record, &Action::Seal(None)) {
+        StepOut::Next(x) => x,
+        _ => return,
+    };
+    for extra in [0u64, 1] {
+        let s = match advance(eng, sealed.clone(), extra) {
+            Some(x) => x,
+            None => return,
+        };
+        let open = match eng.step(&s, &Action::Open) {
+            StepOut::Next(x) => x,
+            _ => return,
+        };
+        let cases = cases_for(&open, coins, difficulties, thorough, other_header);
+        run.states_add(cases.len() as u64);
+        cases.par_iter().for_each(|c| {
+            let a = Action::Batch { label: format!("after-speed-record: {}", c.label), txs: vec![c.tx.clone()], expect_ok: c.valid };
+            match eng.step(&open, &a) {
+                StepOut::Next(_) => run.outcome("mint-after-record:accepted"),
+                StepOut::Rejected => run.outcome("mint-after-record:rejected"),
+                StepOut::Pruned => run.outcome("mint-after-record:engine-reported"),
+            }
+        });
     }
 }
 
@@ -235,7 +279,7 @@ fn formula_grid(run: &Run) {
 pub fn run(run: &Run) {
     let thorough = run.thorough();
     let ages: Vec<u64> = if thorough { vec![1, 2, 3, 50, 99, 100, 101] } else { vec![1, 2, 3, 50] };
-    let mut diffs: Vec<(u32, bool)> = vec![(1, false), (2, false), (4, false), (8, false), (16, false), (1, true), (3, true), (8, true)];
+    let mut diffs: Vec<(u32, bool)> = vec![(1, false), (2, false), (4, false), (8, false), (16, false), (1, true), (3, true), (8, true), (14, true)];
     if thorough {
         diffs.extend([(3, false), (5, false), (6, false), (7, false), (20, false), (2, true), (12, true)]);
     }
